@@ -110,7 +110,7 @@ def explore(cfg, env0, funcs=None, on_node=None, max_states=20000, start=None, u
                 for s, l in nd.succ:
                     if l == 'done':
                         succs.append((s, env2))
-        elif concrete_exceptions and nd.kind in ('stmt', 'return') and _raises(nd, env, funcs) is not None:
+        elif concrete_exceptions and nd.kind in ('stmt', 'return', 'expr') and _raises(nd, env, funcs) is not None:
             # every input of this statement is closed and evaluating it raises: control goes to the handlers that catch
             # that exception (innermost try), or leaves the function
             exc = _raises(nd, env, funcs)
@@ -133,6 +133,16 @@ def explore(cfg, env0, funcs=None, on_node=None, max_states=20000, start=None, u
         else:
             env2 = dict(env)
             ks = kills(nd)
+            a0 = nd.ast
+            if nd.kind == 'stmt' and isinstance(a0, ast.Assign) and len(a0.targets) == 1 and isinstance(a0.targets[0], ast.Subscript) \
+                    and isinstance(a0.targets[0].value, ast.Subscript):
+                # X[i][j] = v with X[i] a model container: the store goes into the model (below), X keeps its items
+                try:
+                    b0 = A.ev(a0.targets[0].value, env, funcs)
+                    if getattr(b0, '_sa_model', False) and hasattr(type(b0), '__setitem__'):
+                        ks = ()
+                except (A.NotClosed, TypeError, AttributeError, IndexError, KeyError, ValueError):
+                    pass
             for k in ks:
                 for p in list(env2):
                     if (p == k or p.startswith(k + '.') or p.startswith(k + '[')) and p not in pinned:
@@ -265,6 +275,45 @@ def explore(cfg, env0, funcs=None, on_node=None, max_states=20000, start=None, u
                         hash(env2[p])
                     except (A.NotClosed, TypeError, IndexError, ValueError):
                         env2.pop(p, None)
+            # a closed set value:  S.add(v) / S.discard(v) / S.update(vs)
+            if nd.kind == 'stmt' and isinstance(a, ast.Expr) and isinstance(a.value, ast.Call) and isinstance(a.value.func, ast.Attribute) \
+                    and a.value.func.attr in ('add', 'discard', 'update') and len(a.value.args) == 1 and not a.value.keywords:
+                p = path_of(a.value.func.value)
+                if p and isinstance(env.get(p), frozenset) and p not in pinned:
+                    try:
+                        v_ = A.ev(a.value.args[0], env, funcs)
+                        if a.value.func.attr == 'add':
+                            hash(v_)
+                            env2[p] = env[p] | {v_}
+                        elif a.value.func.attr == 'discard':
+                            env2[p] = env[p] - {v_}
+                        else:
+                            env2[p] = env[p] | frozenset(v_)
+                    except (A.NotClosed, TypeError, AttributeError, IndexError, KeyError, ValueError):
+                        env2.pop(p, None)
+            # containers that live inside a model object of the rule (not in the environment): the model itself is changed
+            #   model.items.append(v)      model_container[i] = v
+            if nd.kind == 'stmt' and isinstance(a, ast.Expr) and isinstance(a.value, ast.Call) and isinstance(a.value.func, ast.Attribute) \
+                    and a.value.func.attr in ('append', 'extend', 'insert') and not a.value.keywords:
+                p = path_of(a.value.func.value)
+                if not (p and p in env):
+                    try:
+                        recv_ = A.ev(a.value.func.value, env, funcs)
+                        if isinstance(recv_, list):
+                            getattr(recv_, a.value.func.attr)(*[A.ev(x_, env, funcs) for x_ in a.value.args])
+                            env2['@mut'] = env.get('@mut', 0) + 1        # (the state is a new one although no variable changed)
+                    except (A.NotClosed, TypeError, AttributeError, IndexError, KeyError, ValueError):
+                        pass
+            if nd.kind == 'stmt' and isinstance(a, ast.Assign) and len(a.targets) == 1 and isinstance(a.targets[0], ast.Subscript):
+                p = path_of(a.targets[0].value)
+                if not (p and p in env):
+                    try:
+                        base_ = A.ev(a.targets[0].value, env, funcs)
+                        if isinstance(base_, list) or (getattr(base_, '_sa_model', False) and hasattr(type(base_), '__setitem__')):
+                            base_[A.ev(a.targets[0].slice, env, funcs)] = A.ev(a.value, env, funcs)
+                            env2['@mut'] = env.get('@mut', 0) + 1
+                    except (A.NotClosed, TypeError, AttributeError, IndexError, KeyError, ValueError):
+                        pass
             # a closed table (FrozenDict value):  D[k] = v  /  D[k] op= v  /  del D[k]
             tgt_ = None
             if nd.kind == 'stmt' and isinstance(a, (ast.Assign, ast.AugAssign)):
@@ -329,7 +378,8 @@ def _raises(nd, env, funcs):
     elif isinstance(a, (ast.Assign, ast.AugAssign)):
         v = a.value
     elif isinstance(a, ast.Expr):
-        v = None
+        # a bare expression that is evaluated for its exception (`obj.attr` as a probe); calls are left alone
+        v = a.value if isinstance(a.value, (ast.Attribute, ast.Subscript)) else None
     if v is None:
         return None
     try:
